@@ -89,6 +89,10 @@ def _parse(out: str, res: TLCResult, init_names=("Init",)):
         res.ok = False
         ti = out.find("Error: The behavior up to this point is:")
         trace = ""
+        mi0 = re.search(r"is violated by the initial state:\s*\n(.*?)(?:\n\s*\n|\Z)", out, re.S)
+        if ti < 0 and mi0:
+            # TLC prints the offending initial state without a behaviour block
+            trace = "Error: The behavior up to this point is:\nState 1: <Initial predicate>\n" + mi0.group(1).strip() + "\n"
         if ti >= 0:
             te = out.find("The coverage statistics", ti)
             if te < 0:
